@@ -285,11 +285,12 @@ def parse_tok(tok):
     raise ValueError("not a point token: " + tok)
 
 
-def o_val(spec, p, b=None):
+def o_val(spec, p, b=None, a=None):
     """ORACLE reading of an operand description: the affine point it denotes (None = O).  Z = 0 (mod p) denotes O;
-    everything else is (X/Z^2, Y/Z^3) — in particular Y = 0, Z != 0 is the point (x, 0) of order 2, NOT the identity.
-    The one exception is the library's own identity triple X = Y = 0 on a curve with b != 0 (where (0, 0) is not a point
-    of the curve): it denotes O (pass `b` to enable it)."""
+    everything else is (X/Z^2, Y/Z^3) — in particular Y = 0, Z != 0 with (x, 0) ON the curve is the point of order 2,
+    NOT the identity (K1).  A triple with Y = 0 whose (x, 0) is NOT a point of the curve — the library's own identity
+    triple (0, 0, 1) when b != 0, or (5, 0, 1) on a curve where 5 is no root of x^3+ax+b (pass `a`, `b`) — is no point at
+    all; the property's state anchor reads it as the identity, so it denotes O."""
     if spec.kind == "inf":
         return None
     if spec.kind == "A":
@@ -300,7 +301,10 @@ def o_val(spec, p, b=None):
     if b is not None and b % p != 0 and x % p == 0 and y % p == 0:
         return None
     zi = pow(z, -1, p)
-    return (x * zi * zi % p, y * zi * zi * zi % p)
+    xa = x * zi * zi % p
+    if a is not None and b is not None and y % p == 0 and (xa ** 3 + a * xa + b) % p != 0:
+        return None
+    return (xa, y * zi * zi * zi % p)
 
 
 def zclass(s1, s2):
